@@ -439,8 +439,10 @@ class Kernel:
                 ac.inject(fn)
             except TypeError:
                 return ["typeError"]
-        if any(f"{os.sep}asphalt{os.sep}" in (w.filename or "") for w in wlist):
-            return ["warnNoInject"]       # inject() warns (whatever the wording) when there is nothing to inject
+        if any(issubclass(w.category, UserWarning) for w in wlist):
+            # inject() warns - a UserWarning, whatever its wording and whichever frame it is attributed to (stacklevel) -
+            # when there is nothing to inject
+            return ["warnNoInject"]
         return ["ok"]
 
     @staticmethod
